@@ -95,7 +95,24 @@ def positions():
         a, _ = spell("ctex", *sp)
         return f"WITH {a} AS (SELECT c1 FROM src1) INSERT INTO tgt1 SELECT c1 FROM {a}", [("pair", ("<default>.src1.c1", "<default>.tgt1.c1")), ("only_source", "<default>.src1")]
 
-    return [("from", p_from, True), ("target", p_target, True), ("column", p_column, False), ("qualifier", p_qualifier, True), ("alias", p_alias, False),
+    def p_cte_qualifier(sp, n):
+        a, _ = spell("ctex", *sp)
+        return (f"WITH {a} AS (SELECT c1 FROM src1) INSERT INTO tgt1 SELECT {a}.c1 FROM {a}",
+                [("pair", ("<default>.src1.c1", "<default>.tgt1.c1")), ("only_source", "<default>.src1")])
+
+    def p_derived_qualifier(sp, n):
+        a, _ = spell("dvx", *sp)
+        return (f"INSERT INTO tgt1 SELECT {a}.c1 FROM (SELECT c1 FROM src1) {a} JOIN src2 ON {a}.c1 = src2.c1",
+                [("pair", ("<default>.src1.c1", "<default>.tgt1.c1"))])
+
+    def p_table_name_qualifier_chain(sp, n):
+        t, ref = table_name(["dbx", "scm", "tabx"][3 - n:], sp)
+        return (f"INSERT INTO {t} SELECT c1 FROM src1; INSERT INTO fin1 SELECT {t}.c1 FROM {t}",
+                [("path", ["<default>.src1.c1", ref + ".c1", "<default>.fin1.c1"]), ("intermediate_table", ref)])
+
+    extra = [("cte_name_as_qualifier", p_cte_qualifier, False), ("derived_alias_as_qualifier", p_derived_qualifier, False),
+             ("table_name_as_qualifier_across_statements", p_table_name_qualifier_chain, True)]
+    return extra + [("from", p_from, True), ("target", p_target, True), ("column", p_column, False), ("qualifier", p_qualifier, True), ("alias", p_alias, False),
             ("insert_column_list", p_collist, False), ("chain_two_statements", p_chain, True), ("cte_name", p_cte, False)]
 
 
@@ -134,7 +151,7 @@ def classify(case, detail):
     def lowered_variant(e):
         return isinstance(e, str) and any(ch.isupper() for ch in e)
 
-    if pos in ("column", "chain_two_statements", "insert_column_list", "qualifier", "from", "target") and detail.get("what") != "raises":
+    if pos in ("column", "chain_two_statements", "insert_column_list", "qualifier", "from", "target", "table_name_as_qualifier_across_statements") and detail.get("what") != "raises":
         # symptom: the reported side contains the expected name with (part of) it lower-cased
         flat = str(rep).lower()
         e = exp if isinstance(exp, str) else str(exp)
